@@ -62,7 +62,7 @@ Print Assumptions C17_line_code_is_line.
 
 (* that line exists and contains the token at the reported column *)
 Theorem C17_line_code_contains_name : forall t A l B,
-  consistent t = true -> leaves t = A ++ l :: B ->
+  consistent t = true -> leaves t = A ++ l :: B -> lvalue l <> [] ->
   let lines := split_lines (get_code t) in
   1 <= fst (lstart l) /\ (N.to_nat (fst (lstart l) - 1) < length lines)%nat /\
   exists a b, get_line_code lines (fst (lstart l)) 0 0 = a ++ first_line (lvalue l) ++ b /\
@@ -72,11 +72,11 @@ Print Assumptions C17_line_code_contains_name.
 
 (* ---- definition range ---- *)
 
-(* whatever ancestor node get_definition() picks, the reported range
-   [start of its first leaf, end of its last leaf (for functions/classes: of the last leaf
-   that is not the trailing newline)] encloses the whole name token *)
+(* whatever ancestor node get_definition() picks (free of zero-width error leaves), the
+   reported range [start of its first leaf, end of its last leaf (for functions/classes: of
+   the last leaf that is not the trailing newline)] encloses the whole name token *)
 Theorem C17_def_range_encloses : forall t path d x fc,
-  consistent t = true -> subtree t path = Some d -> In x (leaves d) ->
+  consistent t = true -> subtree t path = Some d -> solid d = true -> In x (leaves d) ->
   is_name x = true -> no_break (lvalue x) = true ->
   exists rng, def_range t (Some path) x fc = Some rng /\
               encloses rng (lstart x) (length (lvalue x)) = true.
@@ -155,6 +155,7 @@ Definition C17_ex_tree : tree :=
 
 Example C17_example_consistent :
   consistent C17_ex_tree = true /\ names_wf C17_ex_tree = true /\
+  option_map solid (subtree C17_ex_tree [0%nat]) = Some true /\
   get_code C17_ex_tree =
     [100;101;102;32;102;40;97;41;58;13;10;9;120;32;61;32;97;32;43;32;92;13;10;32;32;49;13;12;233;
      32;61;32;39;39;39;115;10;116;39;39;39;10;121;32;61;32;102] /\
